@@ -192,6 +192,39 @@ def run(chk, prop, which=None, runs=None, nsteps=None, gen_kw=None, extra_monito
     return results
 
 
+def model_only(chk, prop, runs=12, nsteps=300, gen_kw=None, seed_mul=15485863):
+    """generated sessions through the real tunnel() loop and the byte-level Lean server model, no property monitor: for checks whose theorems are
+    about a part of the server (login, pool, forwarding, extraction) and rest on the session model being the code.  Reports like run():
+    harness abort; `correspondence broken` (no-failing-input-found) when nothing else was violated."""
+    exe = vlib.build_srv()
+    jobs = [(exe, chk.seed * seed_mul + k, nsteps, (), gen_kw or {}) for k in range(runs)]
+    with ProcessPoolExecutor(min(16, os.cpu_count() or 4)) as ex:
+        results = list(ex.map(_one_run, jobs))
+    nops, ndiff, first = 0, 0, None
+    for r in results:
+        nops += len(r["ops"])
+        if r["dead"]:
+            op, rc, err = r["dead"]
+            chk.violation("the server harness aborted (sanitizer or crash, rc=%s) on op: %s\n%s" % (rc, op[:200], err[-1500:]), r["ops"] + [op], key="abort:session")
+            continue
+        d = model_diff(chk, r["ops"], r["lines"])
+        if d is None:
+            if not chk.violations:
+                chk.violation("model driver does not build: " + vlib.ensure_lean().log[-1500:], ["# lake build iodmodel failed"], no_input=True)
+            return
+        ndiff += d[0]
+        if d[1] and first is None:
+            first = (r, d[1])
+    chk.notes["session_model_ops_compared"] = nops
+    chk.notes["session_model_diffs"] = ndiff
+    chk.cov["evaluations"] = chk.cov.get("evaluations", 0) + nops
+    if first is not None and not chk.violations:
+        r, (i, mop, a, b) = first
+        chk.violation("correspondence broken (Server.* vs iodined.c): model and implementation differ on %d ops of generated sessions; no violation of %s found.\nfirst: step %d of seed %d: %s\n impl:  %s\n model: %s"
+                      % (ndiff, prop, i, r["seed"], mop[:200], a[:600], b[:600]),
+                      ["# correspondence Server.iteration vs iodined.c tunnel() no longer checks; ops up to the first difference:"] + r["ops"][:i + 1], no_input=True)
+
+
 def replay(chk, path, prop, which=None):
     exe = vlib.build_srv()
     ops = [l.strip() for l in open(path) if l.strip() and not l.startswith("#")]
